@@ -85,6 +85,14 @@ Theorem C16_algorithm_counters : forall ps c, disciplined ps = true -> forall ws
 Proof. exact algorithm_counters. Qed.
 Print Assumptions C16_algorithm_counters.
 
+Theorem C16_feedback_value : forall ps c, disciplined ps = true -> forall ws sched,
+  let st := run ps c (init_state c ws) sched in
+  map fst (a_fedv (alg (fst st))) = a_fed (alg (fst st)) /\
+  (forall s k r, In (s, k, r) (a_fedv (alg (fst st))) ->
+     exists x, nth_error (trials_of st) (k - 1) = Some x /\ t_id x = k /\ t_final x = Some r /\ t_done x = true /\ t_inf x = false).
+Proof. exact feedback_value. Qed.
+Print Assumptions C16_feedback_value.
+
 (* re-checked on every run against the programs regenerated from the current source *)
 Theorem C16_instance : disciplined Gen.SchedProg.progs = true.
 Proof. exact instance_disciplined. Qed.
